@@ -931,4 +931,61 @@ theorem finderLiteralAfterLoopIx_eq (lower : Nat → Nat) (l : LitAfterLoop) (te
     simp only
     rw [searchLoop_congr _ _ _ _ (fun s _ => indexOfLiteralAfterLoop_callsite lower l text s)]
 
+/-! ### the documented tests, as propositions -/
+
+/-- `in[i]` exists and satisfies `Q` -/
+def RuneAt (inp : List Nat) (Q : Nat → Prop) (i : Nat) : Prop := ∃ c, inp[i]? = some c ∧ Q c
+
+/-- `find` lies in `inp` at `i` as a contiguous sub-slice -/
+def SubAt (inp find : List Nat) (i : Nat) : Prop := (inp.drop i).take find.length = find
+
+theorem rangeLoop_firstP (test : Nat → Bool) (Q : Nat → Prop) (h : ∀ c, test c = true ↔ Q c) (inp : List Nat) :
+    FirstIdx (RuneAt inp Q) (rangeLoop test inp 0) :=
+  (rangeLoop_first test inp).congr fun i =>
+    ⟨fun ⟨c, h1, h2⟩ => ⟨c, h1, (h c).mp h2⟩, fun ⟨c, h1, h2⟩ => ⟨c, h1, (h c).mpr h2⟩⟩
+
+theorem downLoop_lastP (test : Nat → Bool) (Q : Nat → Prop) (h : ∀ c, test c = true ↔ Q c) (inp : List Nat) :
+    ∃ r, downLoop test inp inp.length = some r ∧ LastIdx (RuneAt inp Q) r := by
+  obtain ⟨r, hr, hl⟩ := downLoop_last test inp
+  exact ⟨r, hr, hl.congr fun i =>
+    ⟨fun ⟨c, h1, h2⟩ => ⟨c, h1, (h c).mp h2⟩, fun ⟨c, h1, h2⟩ => ⟨c, h1, (h c).mpr h2⟩⟩⟩
+
+theorem prefixOf_pointwise (eq : Nat → Nat → Bool) : ∀ (pat ts : List Nat), prefixOf eq pat ts = true ↔
+    (pat.length ≤ ts.length ∧ ∀ j, j < pat.length → ∃ t c, ts[j]? = some t ∧ pat[j]? = some c ∧ eq t c = true) := by
+  intro pat
+  induction pat with
+  | nil => intro ts; simp [prefixOf]
+  | cons c ps ih =>
+    intro ts
+    cases ts with
+    | nil => simp [prefixOf]
+    | cons t ts =>
+      simp only [prefixOf, Bool.and_eq_true, ih ts, List.length_cons]
+      constructor
+      · rintro ⟨h1, h2, h3⟩
+        refine ⟨by omega, fun j hj => ?_⟩
+        cases j with
+        | zero => exact ⟨t, c, by simp, by simp, h1⟩
+        | succ j =>
+          obtain ⟨t', c', a, b, e⟩ := h3 j (by omega)
+          exact ⟨t', c', by simpa using a, by simpa using b, e⟩
+      · rintro ⟨h1, h2⟩
+        obtain ⟨t', c', a, b, e⟩ := h2 0 (by omega)
+        simp only [List.getElem?_cons_zero, Option.some.injEq] at a b
+        subst a; subst b
+        refine ⟨e, by omega, fun j hj => ?_⟩
+        obtain ⟨t', c', a, b, e⟩ := h2 (j + 1) (by omega)
+        exact ⟨t', c', by simpa using a, by simpa using b, e⟩
+
+theorem occursAt_pointwise (eq : Nat → Nat → Bool) (find inp : List Nat) (i : Nat) (hi : i ≤ inp.length) :
+    occursAt eq find inp i = true ↔
+      (i + find.length ≤ inp.length ∧
+        ∀ j, j < find.length → ∃ t c, inp[i + j]? = some t ∧ find[j]? = some c ∧ eq t c = true) := by
+  unfold occursAt
+  rw [prefixOf_pointwise]
+  simp only [List.length_drop, List.getElem?_drop]
+  constructor
+  · rintro ⟨h1, h2⟩; exact ⟨by omega, h2⟩
+  · rintro ⟨h1, h2⟩; exact ⟨by omega, h2⟩
+
 end RegexVerif.Lemmas.IndexOf
